@@ -1,4 +1,107 @@
 import RP.Driver.Common
--- line-protocol driver for property C15 (stub)
-def handle (_line : String) : String := "unimplemented"
-def main : IO Unit := RP.Driver.run handle
+import RP.Model.Codec
+/-! line-protocol driver for C15: every op runs the definitions of `RP.Codec` that the theorems of
+`RP/Props/C15.lean` are about.  `panic` is the model's `none`. -/
+open RP.Driver RP.Codec
+
+namespace RP.DriverC15
+
+def nat? (s : String) : Option Nat := s.toNat?
+def int? (s : String) : Option Int :=
+  if s.startsWith "-" then (s.drop 1).toNat?.map (fun n => - (Int.ofNat n)) else s.toNat?.map Int.ofNat
+
+def showOpt {α : Type} (f : α → String) : Option α → String
+  | some a => f a
+  | none => "panic"
+
+def showAction : Action → String
+  | .fold => "fold" | .check => "check"
+  | .call x => s!"call:{x}" | .raise x => s!"raise:{x}" | .shove x => s!"shove:{x}" | .blind x => s!"blind:{x}"
+  | .draw h => s!"draw:{h}"
+def readAction (s : String) : Option Action :=
+  match s.splitOn ":" with
+  | ["fold"] => some .fold
+  | ["check"] => some .check
+  | ["call", x] => (int? x).map .call
+  | ["raise", x] => (int? x).map .raise
+  | ["shove", x] => (int? x).map .shove
+  | ["blind", x] => (int? x).map .blind
+  | ["draw", h] => (nat? h).map .draw
+  | _ => none
+
+def showEdge : Edge → String
+  | .draw => "draw" | .fold => "fold" | .check => "check" | .call => "call" | .shove => "shove"
+  | .raise n d => s!"raise:{n}:{d}"
+def readEdge (s : String) : Option Edge :=
+  match s.splitOn ":" with
+  | ["draw"] => some .draw | ["fold"] => some .fold | ["check"] => some .check
+  | ["call"] => some .call | ["shove"] => some .shove
+  | ["raise", n, d] => match int? n, int? d with
+    | some n, some d => some (.raise n d)
+    | _, _ => none
+  | _ => none
+def showEdges (es : List Edge) : String := if es.isEmpty then "-" else ",".intercalate (es.map showEdge)
+def readEdges (s : String) : Option (List Edge) :=
+  if s = "-" then some [] else optAll readEdge (s.splitOn ",")
+
+def showAbs (a : Abs) : String := s!"{a.variant}:{a.bits}"
+
+def handle (line : String) : String :=
+  match words line with
+  | ["enc-card8", c] => match nat? c with | some c => s!"{cardToU8 c}" | none => "bad-op"
+  | ["dec-card8", n] => match nat? n with | some n => s!"{cardOfU8 n}" | none => "bad-op"
+  | ["enc-card32", c] => match nat? c with | some c => s!"{cardToU32 c}" | none => "bad-op"
+  | ["dec-card32", n] => match nat? n with | some n => showOpt toString (cardOfU32 n) | none => "bad-op"
+  | ["dec-hand", n] => match nat? n with | some n => s!"{handOfU64 RP.Gen.handMaskStd n}" | none => "bad-op"
+  | ["enc-hand", h] => match nat? h with | some h => s!"{handToU64 h}" | none => "bad-op"
+  | ["cards-hand", h] => match nat? h with
+    | some h => let cs := handCards h; if cs.isEmpty then "-" else ",".intercalate (cs.map toString)
+    | none => "bad-op"
+  | ["enc-obs", p, q] => match nat? p, nat? q with
+    | some p, some q => s!"{obsToI64 ⟨p, q⟩}"
+    | _, _ => "bad-op"
+  | ["dec-obs", c] => match int? c with
+    | some c => showOpt (fun o => s!"{o.pocket} {o.board}") (obsOfI64 c)
+    | none => "bad-op"
+  | ["street-obs", c] => match int? c with
+    | some c => showOpt toString (streetOfObsCode c)
+    | none => "bad-op"
+  | ["enc-action", a] => match readAction a with | some a => s!"{actionToU32 a}" | none => "bad-op"
+  | ["dec-action", n] => match nat? n with | some n => showOpt showAction (actionOfU32 n) | none => "bad-op"
+  | ["enc-edge8", e] => match readEdge e with | some e => showOpt toString (edgeToU8 e) | none => "bad-op"
+  | ["dec-edge8", n] => match nat? n with | some n => showOpt showEdge (edgeOfU8 n) | none => "bad-op"
+  | ["enc-edge64", e] => match readEdge e with | some e => s!"{edgeToU64 e}" | none => "bad-op"
+  | ["dec-edge64", n] => match nat? n with | some n => showOpt showEdge (edgeOfU64 n) | none => "bad-op"
+  | ["enc-path", es] => match readEdges es with | some es => showOpt toString (pathOfEdges es) | none => "bad-op"
+  | ["dec-path", n] => match nat? n with | some n => showOpt showEdges (pathToEdges n) | none => "bad-op"
+  | ["path-i64", n] => match nat? n with | some n => s!"{pathToI64 n}" | none => "bad-op"
+  | ["path-of-i64", i] => match int? i with | some i => s!"{pathOfI64 i}" | none => "bad-op"
+  | ["abs", s, i] => match nat? s, nat? i with
+    | some s, some i => if s < 4 then showAbs (absOf s i) else "bad-op"
+    | _, _ => "bad-op"
+  | ["dec-abs", n] => match nat? n with
+    | some n => showOpt (fun a => s!"{showAbs a} {showOpt toString (absStreet a)} {absIndex a}") (absOfU64 n)
+    | none => "bad-op"
+  | ["abs-i64", n] => match nat? n with | some n => s!"{toI64 n}" | none => "bad-op"
+  | ["abs-of-i64", i] => match int? i with
+    | some i => showOpt (fun a => s!"{showAbs a} {showOpt toString (absStreet a)}") (absOfI64 i)
+    | none => "bad-op"
+  | ["pair", a, b] => match nat? a, nat? b with
+    | some a, some b => match absOfU64 a, absOfU64 b with
+      | some a, some b => let k := pairKey a b; s!"{k} {pairToI64 k} {pairOfI64 (pairToI64 k)}"
+      | _, _ => "panic"
+    | _, _ => "bad-op"
+  | ["enc-bucket", p, a, f] => match nat? p, nat? a, nat? f with
+    | some p, some a, some f => match absOfU64 a with
+      | some a => let c := bucketToCodes ⟨p, a, f⟩; s!"{c.1} {c.2.1} {c.2.2}"
+      | none => "panic"
+    | _, _, _ => "bad-op"
+  | ["dec-bucket", p, a, f] => match int? p, int? a, int? f with
+    | some p, some a, some f =>
+      showOpt (fun b => s!"{b.past} {showAbs b.present} {b.future} {showOpt toString (bucketStreetOfCodes (p, a, f))}") (bucketOfCodes (p, a, f))
+    | _, _, _ => "bad-op"
+  | _ => "bad-op"
+
+end RP.DriverC15
+
+def main : IO Unit := RP.Driver.run RP.DriverC15.handle
